@@ -16,6 +16,17 @@ def rangeSeq (fuel : Nat) : Nat → Pcg → Int → Int → List String
     | none => ["fuel"]
     | some (r', v) => toString v :: rangeSeq fuel k r' lo hi
 
+/-- one state, draws in the order of the script: r = 32 bits, f = the fraction's numerator, g = a ranged draw -/
+def mixSeq (fuel : Nat) (lo hi : Int) : List Char → Pcg → List String
+  | [], _ => []
+  | 'r' :: cs, r => let (r', v) := pcgNext r; s!"r{v}" :: mixSeq fuel lo hi cs r'
+  | 'f' :: cs, r => let (r', v) := frandomNum r; s!"f{v}" :: mixSeq fuel lo hi cs r'
+  | 'g' :: cs, r =>
+    match randomRange fuel r lo hi with
+    | none => ["fuel"]
+    | some (r', v) => s!"g{v}" :: mixSeq fuel lo hi cs r'
+  | _ :: _, _ => ["bad-op"]
+
 def num (toks : List String) : String :=
   match toks with
   | ["fnv32", h] => match parseHex h with
@@ -48,6 +59,27 @@ def num (toks : List String) : String :=
           " ".intercalate (rangeSeq 100000 k (newRandomState seed) lo hi)
         else "bad-op"
       | _, _, _, _ => "bad-op"
+  | ["mixfixed", k] =>
+      -- the fixed programs of the harness: (seed, draws with their ranges)
+      let run (seed : Nat) (steps : List (Char × Int × Int)) : String :=
+        let rec go (fuel : Nat) : List (Char × Int × Int) → Pcg → List String
+          | [], _ => []
+          | ('g', lo, hi) :: cs, r => match randomRange fuel r lo hi with
+            | none => ["fuel"]
+            | some (r', v) => s!"g{v}" :: go fuel cs r'
+          | ('f', _, _) :: cs, r => let (r', v) := frandomNum r; s!"f{v}" :: go fuel cs r'
+          | (_, _, _) :: cs, r => let (r', v) := pcgNext r; s!"r{v}" :: go fuel cs r'
+        String.join ((go 100000 steps (newRandomState seed)).map (· ++ " "))
+      if k == "0" then run 7 [('r', 0, 0), ('r', 0, 0), ('r', 0, 0), ('r', 0, 0), ('f', 0, 0), ('g', -5, 5)]
+      else if k == "1" then run 12345 [('g', 0, 9), ('f', 0, 0), ('r', 0, 0), ('g', -100, 100)]
+      else if k == "2" then run 0 [('f', 0, 0), ('f', 0, 0), ('g', 1, 6), ('r', 0, 0)]
+      else "bad-op"
+  | ["mix", seed, lo, hi, script] => match seed.toNat?, lo.toInt?, hi.toInt? with
+      | some seed, some lo, some hi =>
+        if lo ≤ hi ∧ -(2^31 : Int) ≤ lo ∧ hi < (2^31 : Int) then
+          String.join ((mixSeq 100000 lo hi script.toList (newRandomState seed)).map (· ++ " "))
+        else "bad-op"
+      | _, _, _ => "bad-op"
   | _ => "bad-op"
 
 end Gpc.Driver
